@@ -546,7 +546,10 @@ impl TypedArrayKind {
             TypedArrayKind::Int8 => TypedArrayElement::Int8(f64_to_int32(value) as i8),
             TypedArrayKind::Uint8 => TypedArrayElement::Uint8(f64_to_uint32(value) as u8),
             TypedArrayKind::Uint8Clamped => {
-                TypedArrayElement::Uint8Clamped(ClampedU8(value.clamp(0.0, 255.0).round() as u8))
+                // NOTE: ToUint8Clamp rounds ties to even.
+                TypedArrayElement::Uint8Clamped(ClampedU8(
+                    value.clamp(0.0, 255.0).round_ties_even() as u8,
+                ))
             }
             TypedArrayKind::Int16 => TypedArrayElement::Int16(f64_to_int32(value) as i16),
             TypedArrayKind::Uint16 => TypedArrayElement::Uint16(f64_to_uint32(value) as u16),
